@@ -602,6 +602,10 @@ class Case(object):
                 d = m0.eval(mapper())
             elif how == "assume-empty":
                 d = m0.assume([])
+            elif how == "rshift-empty":
+                d = m0 >> mapper()
+            elif how == "lshift-empty":
+                d = mapper() << m0
             else:
                 c = g(op["c"])
                 if c is None or c.size != 1:
@@ -961,7 +965,7 @@ class Gen(object):
         elif k == "map_derive":
             m0 = "m%d" % r.randrange(3)
             m = r.choice([x for x in ("m0", "m1", "m2") if x != m0])
-            how = r.choice(["use", "use", "use", "eval-empty", "assume-empty", "assume", "assume", "assume"])
+            how = r.choice(["use", "use", "use", "eval-empty", "assume-empty", "rshift-empty", "lshift-empty", "assume", "assume", "assume"])
             op = {"op": k, "m0": m0, "m": m, "how": how}
             if how == "assume":
                 c = self.pick(r, case, 1)
